@@ -538,6 +538,9 @@ def _projections(case, ho):
                 held = []
             elif ev["t"] == "sub" and ev.get("p", 0) != pi:
                 continue
+            elif ev["t"] == "reload_race":
+                # probe (never generated): a reload forced to take c.lock while a stream goroutine has just taken a response
+                out_ev = {"t": "reload"}
             elif ev["t"] == "cancel":
                 # the server cancels the newest stream of one prefix; held: the replacement comes at cancel_end
                 cancel_p = ev.get("p", 0)
